@@ -326,12 +326,19 @@ def write_haplotype_vcf(man, path, seed=0):
     l = by["L1_norm"]
     ref, alts = locus_strings(man, l)
     rows.append((l, "L1_zeroalt", alts, False, freqs(len(alts) + 1, zero=(1,))))
+    rows.append((l, "L1_zerolast", alts, False, freqs(len(alts) + 1, zero=(len(alts),))))
+    rows.append((l, "L1_zeroref", alts, False, freqs(len(alts) + 1, zero=(0,))))
     rows.append((l, "L1_af0", alts, False, freqs(len(alts) + 1, allzero=True)))
     rows.append((l, "L1_maskref", alts, True, freqs(len(alts) + 1, zero=(0,))))
     l = by["L2_nosnv"]
     rows.append((l, "L2_noa", [], True, [1.0]))
+    l = by["L6_partial"]
+    ref, alts = locus_strings(man, l)
+    rows.append((l, "L6_onlyref", alts, False, freqs(len(alts) + 1, zero=tuple(range(1, len(alts) + 1)))))
     l = by["L8_multi"]
     ref, alts = locus_strings(man, l)
+    rows.append((l, "L8_zerolast2", alts, False, freqs(len(alts) + 1, zero=(len(alts) - 1, len(alts)))))
+    rows.append((l, "L8_zeroends", alts, False, freqs(len(alts) + 1, zero=(1, len(alts)))))
     rows.append((l, "L8_rare", alts, False, [0.5] + [0.02] * 2 + [round((0.5 - 0.04) / (len(alts) - 2), 3)] * (len(alts) - 2)))
     order = {c[0]: i for i, c in enumerate(man["contigs"])}
     out = []
@@ -397,12 +404,29 @@ def merge_repo_bams(out_path, bam_paths, merged_sample):
     return out_path
 
 
-def repo_simple(repo):
-    """The repository's own test data as a manifest-like dict (paths only)."""
-    d = os.path.join(repo, "mchap", "tests", "test_io", "data")
-    p = lambda n: os.path.join(d, n)  # noqa: E731
+def repo_simple(repo, copy_to):
+    """The repository's own test data as a manifest-like dict.  The files are first COPIED into
+    `copy_to` (under /verif/work): nothing a check does (index creation by htslib, temporary
+    files) may ever land in the tree under test."""
+    import shutil
+
+    src = os.path.join(repo, "mchap", "tests", "test_io", "data")
+    os.makedirs(copy_to, exist_ok=True)
+    wanted = ["simple.fasta", "simple.fasta.fai", "simple.vcf.gz", "simple.vcf.gz.tbi", "simple.bed",
+              "simple.pools", "simple.pools-ploidy", "simple.pedigree.132.txt", "simple.tau.132.txt",
+              "simple.output.assemble.vcf", "simple.output.mixed_depth.assemble.vcf", "mock.input.frequencies.vcf"]
+    for i in (1, 2, 3):
+        for stem in ("simple.sample%d.bam" % i, "simple.sample%d.deep.bam" % i):
+            wanted += [stem, stem + ".bai"]
+    for n in wanted:
+        shutil.copyfile(os.path.join(src, n), os.path.join(copy_to, n))
+    # index files must not be older than the data they index
+    for n in wanted:
+        if n.endswith((".bai", ".fai", ".tbi")):
+            os.utime(os.path.join(copy_to, n), None)
+    p = lambda n: os.path.join(copy_to, n)  # noqa: E731
     return {
-        "name": "simple", "dir": d, "ref": p("simple.fasta"), "snv_vcf": p("simple.vcf.gz"), "bed": p("simple.bed"),
+        "name": "simple", "dir": copy_to, "source_dir": src, "ref": p("simple.fasta"), "snv_vcf": p("simple.vcf.gz"), "bed": p("simple.bed"),
         "bams": {"shallow": [p("simple.sample%d.bam" % i) for i in (1, 2, 3)],
                  "deep": [p("simple.sample%d.deep.bam" % i) for i in (1, 2, 3)],
                  "mixed": [p("simple.sample1.bam"), p("simple.sample2.deep.bam"), p("simple.sample3.bam")]},
